@@ -59,7 +59,9 @@ RULE = (
     "0..3 (every byte offset of a character meets the 64 KiB read) through all pipelines; buf: short non-ASCII "
     "values x MultiPartParser(buffer_size=1..17, 64); streams: the request body arriving through BytesIO / a "
     "read()-only / a readinto() stream delivering <=1, 7, 64 bytes per call, with CONTENT_LENGTH or "
-    "wsgi.input_terminated, for every api part list and a urlencoded sub-space. "
+    "wsgi.input_terminated, for every api part list and a urlencoded sub-space. sizes: forms of exactly 999 and "
+    "1000 parts with the default limits, and of 1..4 parts with every part limit (decoder, parser, Request, "
+    "parse_form_data) set to exactly that number, fields only and with one file. "
     "non-trivial = a case whose payload/name is not plain letters (contains CR, LF, '-', quote, %, non-ASCII, NUL "
     "or a near-delimiter) or that has more than one part."
 )
@@ -1129,6 +1131,88 @@ def check_buffered(value: str, kind: str, size: int):
     return []
 
 
+# ------------------------------------------------------------------ sizes: forms at a part limit
+
+SIZE_CASES = [("default", n, mixed) for n in (999, 1000) for mixed in (False, True)] + [
+    (how, n, mixed) for how in ("decoder", "parser", "request", "parse_form_data") for n in (1, 2, 3, 4)
+    for mixed in (False, True)
+]
+
+
+def size_parts(n: int, mixed: bool):
+    parts = [fld("f%d" % i, "v%d" % i) for i in range(n)]
+    if mixed:
+        parts[n // 2] = fil("up", "u.bin", b"data\r\n")
+    return tuple(parts)
+
+
+def check_size(how: str, n: int, mixed: bool):
+    """A form of exactly n parts: with the default limits (n = 999, 1000) and with every part limit set to
+    exactly n.  A form that is within the limit must come back identical."""
+    from werkzeug.formparser import parse_form_data
+
+    parts = size_parts(n, mixed)
+    try:
+        if how == "decoder":
+            exp = expect_sansio(parts)
+            b = b"bnd"
+            enc = mp.MultipartEncoder(b)
+            body = enc.send_event(mp.Preamble(data=b""))
+            for kind, name, filename, ctype, payload in parts:
+                h = Headers([("Content-Type", ctype)] if ctype else [])
+                ev = mp.File(name=name, filename=filename, headers=h) if kind == "file" else mp.Field(name=name, headers=h)
+                body += enc.send_event(ev) + enc.send_event(mp.Data(data=as_bytes(kind, payload, ctype), more_data=False))
+            body += enc.send_event(mp.Epilogue(data=b""))
+            dec = mp.MultipartDecoder(b, max_parts=n)
+            dec.receive_data(body)
+            dec.receive_data(None)
+            got, cur = [], None
+            while True:
+                ev = dec.next_event()
+                if isinstance(ev, mp.Epilogue):
+                    break
+                if isinstance(ev, mp.File):
+                    cur = ["file", ev.name, ev.filename, ev.headers.get("content-type"), b"", False]
+                    got.append(cur)
+                elif isinstance(ev, mp.Field):
+                    cur = ["field", ev.name, None, ev.headers.get("content-type"), b"", False]
+                    got.append(cur)
+                elif isinstance(ev, mp.Data):
+                    cur[4] += ev.data
+                    cur[5] = not ev.more_data
+            got = [tuple(g) for g in got]
+        else:
+            exp = expect_form(parts, "request")
+            with _owned_boundary(0):
+                kw = {} if mixed else {"content_type": "multipart/form-data"}
+                builder = EnvironBuilder(method="POST", data=MultiDict(to_values(parts, True)), **kw)
+                try:
+                    env = builder.get_environ()
+                finally:
+                    builder.close()
+            if how == "default":
+                got = _read_request(Request(env))
+            elif how == "request":
+                class Limited(Request):
+                    max_form_parts = n
+
+                got = _read_request(Limited(env))
+            elif how == "parse_form_data":
+                _st, form, files = parse_form_data(env, max_form_parts=n, silent=False)
+                got = (list(form.items(multi=True)), read_files(files))
+            else:
+                body = env["wsgi.input"].read()
+                form, files = MultiPartParser(max_form_parts=n).parse(
+                    io.BytesIO(body), req_boundary(0).encode(), len(body))
+                got = (list(form.items(multi=True)), read_files(files))
+    except Exception as e:  # noqa: BLE001
+        got = ("EXC", f"{type(e).__name__}: {e}")
+    if got != exp:
+        return [(f"sizes:{how}:" + diff_sig(exp, got),
+                 {"pipeline": "sizes", "expected": core.show(exp, 300), "got": core.show(got, 300)})]
+    return []
+
+
 # ------------------------------------------------------------------ units
 
 N_MP = 96
@@ -1147,6 +1231,7 @@ def units(tier):
     out += [("foreign", 0, 1)]
     out += [("long", i, 0) for i in range(len(LONG_CHARS) * 4)]
     out += [("buf", 0, 1), ("uestream", 0, 2), ("uestream", 1, 2)]
+    out += [("sizes", i, 4) for i in range(4)]
     return out
 
 
@@ -1242,6 +1327,15 @@ def run_unit(unit, R, tier):
                     R.nontrivial(("buf", v, fk, size))
                     for sig, d in check_buffered(v, fk, size):
                         R.violation(sig, {"kind": "buf", "sig": sig, "value": v, "part": fk, "size": size, **d})
+    elif kind == "sizes":
+        _, idx, n = unit
+        for how, cnt, mixed in gen.shard(SIZE_CASES, n, idx):
+            R.ev()
+            R.count("size_cases")
+            R.use("sizes:" + how)
+            R.nontrivial(("sizes", how, cnt, mixed))
+            for sig, d in check_size(how, cnt, mixed):
+                R.violation(sig, {"kind": "sizes", "sig": sig, "how": how, "n": cnt, "mixed": mixed, **d})
     elif kind == "uestream":
         _, idx, n = unit
         for pairs in gen.shard(ue_stream_cases(), n, idx):
@@ -1309,6 +1403,7 @@ def finalize(R, tier):
     need |= {"mp:BIG:%d" % n for n in BIG}
     need |= {"foreign:" + st for st in F_STYLES}
     need |= {"long:" + ch for ch in LONG_CHARS}
+    need |= {"sizes:" + h for h in ("default", "decoder", "parser", "request", "parse_form_data")}
     missing = need - R.used
     if missing:
         raise core.Broken(f"vacuity: never exercised {sorted(missing)}")
@@ -1368,6 +1463,9 @@ def replay(rec):
     elif kind == "buf":
         fails = check_buffered(rec["value"], rec["part"], rec["size"])
         text = f"MultiPartParser(buffer_size={rec['size']}) {rec['part']} value {rec['value']!r}"
+    elif kind == "sizes":
+        fails = check_size(rec["how"], rec["n"], rec["mixed"])
+        text = f"form of exactly {rec['n']} parts ({'one file among them' if rec['mixed'] else 'fields only'}), limit: {rec['how']}"
     elif kind == "uestream":
         pairs = tuple(tuple(p) for p in rec["pairs"])
         fails = [f for f in check_ue_streams(pairs) if f[1]["pipeline"] == rec.get("pipeline")]
